@@ -32,7 +32,7 @@ from vf.ref import tlshello
 PROPERTY = "C19"
 LEVEL = "exploration"
 ENGINE = "sansio"
-BUDGET = {"quick": (260, 16), "thorough": (12000, 240)}
+BUDGET = {"quick": (260, 14), "thorough": (12000, 240)}
 WORKERS = {"quick": 4, "thorough": 16}
 REQUIRED = ["decision", "decision.excluded", "decision.not_excluded", "no_intercept", "transparent", "intercepted", "tls_hook_passthrough", "mode.regular", "mode.transparent", "mode.reverse", "mode.socks5"]
 TECHNIQUE = "runtime monitoring: real NextLayer addon + mode layers on the sans-io driver, independent host-rule oracle, end-to-end byte comparison"
@@ -428,8 +428,11 @@ def run(ctx):
                 if dec["excluded"]:
                     ctx.count("decision.excluded")
                     if observed is not True:
+                        mech = classify(spec, dec, first_ask, observed)
                         ctx.violation("excluded-destination-was-intercepted" if observed is False else "excluded-destination-never-decided",
-                                      {**witness, "chosen": first_decided and first_decided["layer"]}, classify(spec, dec, first_ask, observed))
+                                      {**witness, "chosen": first_decided and first_decided["layer"]}, mech)
+                        if mech:
+                            continue  # classified: keep exploring the other segmentations of this case
                         break
                     ctx.count("no_intercept")
                     if fired:
@@ -441,8 +444,11 @@ def run(ctx):
                 else:
                     ctx.count("decision.not_excluded")
                     if observed is not False:
+                        mech = classify(spec, dec, first_ask, observed)
                         ctx.violation("not-excluded-destination-was-ignored" if observed else "not-excluded-destination-never-decided",
-                                      {**witness, "chosen": first_decided and first_decided["layer"]}, classify(spec, dec, first_ask, observed))
+                                      {**witness, "chosen": first_decided and first_decided["layer"]}, mech)
+                        if mech:
+                            continue
                         break
                     ctx.count("intercepted")
                     if not fired and spec["kind"] != "other":
